@@ -8,6 +8,7 @@ import (
 	"os/exec"
 	"path/filepath"
 	"regexp"
+	"runtime"
 	"strings"
 	"sync"
 	"time"
@@ -136,7 +137,7 @@ func Discharge(obls []*Obligation, timeout time.Duration, workers int, keepDir s
 		}
 	}
 	if len(retry) > 0 && len(retry) <= 60 {
-		sem := make(chan struct{}, 4)
+		sem := make(chan struct{}, 3)
 		var wg2 sync.WaitGroup
 		for _, i := range retry {
 			wg2.Add(1)
@@ -151,7 +152,7 @@ func Discharge(obls []*Obligation, timeout time.Duration, workers int, keepDir s
 				}
 				prev := o.Output
 				o.Result, o.Solver, o.Output = "", "", ""
-				t := dischargeSeeds(o, file, 3*timeout)
+				t := dischargeSeeds(o, file, 4*timeout)
 				if o.Result != "proved" {
 					o.Output = prev + " | retry: " + o.Output
 				}
@@ -376,4 +377,14 @@ func cvc5File(file string) string {
 		return file
 	}
 	return out
+}
+
+// dischargeWorkers: every worker races two solver processes, so half as many workers as cores keeps each solver on a
+// core of its own (a timeout then means what it says also when the whole machine is used).
+func dischargeWorkers() int {
+	n := runtime.NumCPU() / 2
+	if n < 2 {
+		n = 2
+	}
+	return n
 }
